@@ -45,7 +45,7 @@ func (s Spec) name() string {
 
 func (s Spec) bodyFails() bool {
 	switch s.Body {
-	case "fail1", "fail2", "append", "nest-fail", "nest-retfail", "spawn-fail", "broken-quote", "unknown-cmd":
+	case "fail1", "fail2", "append", "nest-fail", "nest-retfail", "spawn-fail", "broken-quote", "unknown-cmd", "stop-fail":
 		return true
 	}
 	return false
@@ -69,6 +69,9 @@ func script(s Spec) string {
 		body = []string{"probe --id=body.c1", `pip:run --name=inner --sandbox=retfail:nested.sb --body=\"probe --id=never.c1\"`, "probe --id=body.c2"}
 	case "nest-retok":
 		body = []string{"probe --id=body.c1", `pip:run --name=inner --sandbox=retok:nested.sb --body=\"probe --id=never.c1\"`, "probe --id=body.c2"}
+	case "stop-fail":
+		// the failing command has stopped its scope gracefully before it reports the failure
+		body = []string{"probe --id=body.c1 --fail=stop-return"}
 	case "broken-quote":
 		// the body's script breaks off inside a quoted argument: it cannot be read to its end
 		body = []string{"probe --id=body.c1", `probe --id=body.c2 \"never closed`}
@@ -211,7 +214,7 @@ func programs(thorough bool) []Spec {
 		b = 1
 	}
 	var ps []Spec
-	for _, body := range []string{"ok", "fail1", "fail2", "append", "nest-ok", "nest-fail", "nest-retfail", "nest-retok", "spawn-fail", "spawn-ok", "broken-quote", "unknown-cmd"} {
+	for _, body := range []string{"ok", "fail1", "fail2", "append", "nest-ok", "nest-fail", "nest-retfail", "nest-retok", "spawn-fail", "spawn-ok", "broken-quote", "unknown-cmd", "stop-fail"} {
 		for mask := 0; mask < 8; mask++ {
 			s := Spec{Body: body, Success: mask&1 != 0, Fail: mask&2 != 0, Finally: mask&4 != 0, Bound: b}
 			if strings.HasPrefix(body, "nest") {
@@ -220,7 +223,7 @@ func programs(thorough bool) []Spec {
 					continue
 				}
 			}
-			if body == "broken-quote" || body == "unknown-cmd" {
+			if body == "broken-quote" || body == "unknown-cmd" || body == "stop-fail" {
 				if mask != 7 && mask != 3 && !thorough {
 					continue
 				}
@@ -317,7 +320,7 @@ func replay(wj json.RawMessage) (*fw.Violation, error) {
 
 func init() {
 	fw.Register(&fw.Check{ID: "C16", Level: "model_checking",
-		Rule: "programs = body {succeeds, fails at command 1 / 2, appends an error, names an unknown command, breaks off inside a quoted argument, spawns a nested task that succeeds / fails, in the self sandbox or in a sandbox that reports failure only through its return value, or two concurrent tasks one of which fails} x every subset of {success, fail, finally} handlers x one failing handler; the script `pip:try ...` followed by another command is fed to the real terminal loop of a mock application bootstrapped per execution, probe commands log begin/end; every schedule within the bound (quick: free context switches at blocking points; thorough: 1 preemption, nested bodies free switches only) with a happens-before state cache; oracle: which handlers ran, handler begin after the end of the body and of every task it spawned, error state of the surrounding scope, the script continuing after the block, no panic, no deadlock; for programs with a failing handler additionally reachability over the explored schedule set: some schedule runs the finally handler (resp. the matching handler when finally is the failing one). states = distinct schedule traces",
+		Rule: "programs = body {succeeds, fails at command 1 / 2, appends an error, names an unknown command, breaks off inside a quoted argument, stops its scope and then fails, spawns a nested task that succeeds / fails, in the self sandbox or in a sandbox that reports failure only through its return value, or two concurrent tasks one of which fails} x every subset of {success, fail, finally} handlers x one failing handler; the script `pip:try ...` followed by another command is fed to the real terminal loop of a mock application bootstrapped per execution, probe commands log begin/end; every schedule within the bound (quick: free context switches at blocking points; thorough: 1 preemption, nested bodies free switches only) with a happens-before state cache; oracle: which handlers ran, handler begin after the end of the body and of every task it spawned, error state of the surrounding scope, the script continuing after the block, no panic, no deadlock; for programs with a failing handler additionally reachability over the explored schedule set: some schedule runs the finally handler (resp. the matching handler when finally is the failing one). states = distinct schedule traces",
 		Run: run, Replay: replay,
 		Assumptions: []string{"the finally handler is submitted first; when it fails the remaining handlers are not started (the handler failure is what is reported)", "accesses to objects outside the focus packages do not order executions in the happens-before cache (declared reduction)"}})
 }
